@@ -12,6 +12,7 @@ import KafkaVerif.Model.GroupStart
 import KafkaVerif.Model.Group
 import KafkaVerif.Model.GroupFront
 import KafkaVerif.Spec.GroupWire
+import Oracle.GroupWireOps
 
 namespace KV.OracleC03
 open KV KV.Commit
@@ -520,68 +521,6 @@ def opFTrace (evs : String) : String :=
     s!"model={m} holds={if ms.isEmpty then 1 else 0}"
   | none => s!"bad-op {(toks.find? (fun t => (parseFTok t).isNone)).getD "?"}"
 
-/-! ### response bodies written by the byte-level coordinator path, re-encoded from their description -/
-
-open KV.Spec.GroupWire in
-def wireBody (method desc : String) : Option Bytes :=
-  let desc := if desc == "-" then "" else desc
-  let topics (f : String → Option Bytes) : Option Bytes := do
-    let ts := if desc == "" then [] else desc.splitOn ";"
-    let bs ← ts.mapM fun t =>
-      match t.splitOn ":" with
-      | [name, ps] => do
-        let pl := if ps == "" then [] else ps.splitOn "+"
-        let pb ← pl.mapM f
-        some (str name ++ i32 pl.length ++ pb.flatten)
-      | _ => none
-    some (i32 ts.length ++ bs.flatten)
-  match method with
-  | "offsetCommit" => topics fun p =>
-      match p.splitOn "=" with
-      | [pt, c] => do some (i32 (← pt.toInt?) ++ i16 (← c.toInt?))
-      | _ => none
-  | "offsetFetch" => topics fun p =>
-      match p.splitOn "=" with
-      | [po, c] =>
-        match po.splitOn "@" with
-        | [pt, o] => do some (i32 (← pt.toInt?) ++ i64 (← o.toInt?) ++ str "" ++ i16 (← c.toInt?))
-        | _ => none
-      | _ => none
-  | "heartbeat" | "leaveGroup" => desc.toInt?.map errOnly
-  | "findCoordinator" =>
-    match desc.splitOn "," with
-    | [c, host, port] => do some (findCoordinatorResp (← c.toInt?) host (← port.toInt?))
-    | _ => none
-  | "syncGroup" =>
-    match desc.splitOn "," with
-    | [c, "R", hex] => do some (syncGroupResp (← c.toInt?) (← if hex == "" then some [] else ofHex hex))
-    | c :: "A" :: rest =>
-      let a := ",".intercalate rest
-      let ts := if a == "" then [] else a.splitOn ";"
-      do
-        let tl ← ts.mapM fun t =>
-          match t.splitOn ":" with
-          | [name, ps] => do some (name, ← (if ps == "" then [] else ps.splitOn "+").mapM (·.toInt?))
-          | _ => none
-        some (syncGroupResp (← c.toInt?) (assignment tl))
-    | _ => none
-  | "joinGroup" =>
-    match desc.splitOn "," with
-    | [c, g, proto, leader, member, ms] => do
-      let ml := if ms == "" then [] else ms.splitOn "|"
-      let members ← ml.mapM fun m =>
-        match m.splitOn "=" with
-        | [mid, ts] => some (mid, if ts == "" then [] else ts.splitOn "+")
-        | _ => none
-      some (joinGroupResp (← c.toInt?) (← g.toInt?) proto leader member members)
-    | _ => none
-  | _ => none
-
-def opWireBody (method desc impl : String) : String :=
-  match wireBody method desc with
-  | some b => let h := toHex b; s!"model={h} holds={if h == impl then 1 else 0}"
-  | none => "bad-op"
-
 def answer (line : String) : String :=
   match line.splitOn " => " with
   | [req, impl] =>
@@ -592,7 +531,8 @@ def answer (line : String) : String :=
     | ["ctrace", mode, evs] => opTrace mode evs
     | ["gtrace", _tp, evs] => opGTrace evs
     | ["ftrace", evs] => opFTrace evs
-    | ["wirebody", method, desc] => opWireBody method desc impl
+    | ["wirebody", method, desc] => KV.OracleGW.opWireBody method desc impl
+    | ["wirereq", method, desc] => KV.OracleGW.opWireReq method desc impl
     | ["conncodes", _method, codes] =>
       -- Conn.offsetCommit / Conn.offsetFetch report the FIRST non-zero per-partition code of the response (nil if none)
       match (codes.splitOn ",").mapM (·.toInt?) with
